@@ -222,6 +222,26 @@ func (k *Key) PGPEntity() *openpgp.Entity {
 		PrivateKey: k.private,
 		Identities: map[string]*openpgp.Identity{},
 	}
+	if k.private == nil {
+		// Verification only: without the private key there is nothing to self-sign a user id with
+		// (AddUserId dereferences the nil private key). OpenPGP only looks at the self-signature for
+		// the key flags, so a plain, unsigned one is enough to check signatures made by this key.
+		uid := packet.NewUserId("name", "", "")
+		primary := true
+		e.Identities[uid.Id] = &openpgp.Identity{
+			Name:   uid.Id,
+			UserId: uid,
+			SelfSignature: &packet.Signature{
+				CreationTime: k.public.CreationTime,
+				SigType:      packet.SigTypePositiveCert,
+				IsPrimaryId:  &primary,
+				FlagsValid:   true,
+				FlagSign:     true,
+				FlagCertify:  true,
+			},
+		}
+		return e
+	}
 	// somehow initialize the proper fields with identity, self-signature ...
 	err := e.AddUserId("name", "", "", nil)
 	if err != nil {
